@@ -141,10 +141,13 @@ func vPassVariant(v string) string {
 	return v
 }
 
-func (w *vWorld) inject(pass string, cert, tls bool) vResp {
+func (w *vWorld) inject(pass string, cert, tls bool, presented ...bool) vResp {
 	q := vReq{Method: "POST", Path: secretInjectorPath, Form: url.Values{"ssh_ca_password": {vPassVariant(pass)}}}
 	if cert {
 		q.Chains = w.adminChain()
+	} else if len(presented) > 0 && presented[0] {
+		// a certificate was presented but no chain to a trusted authority was built (the listener only requests one)
+		q.PeerCerts = w.adminChain()[0][:1]
 	}
 	q.NoTLS = !tls
 	return w.DoFunc(w.st.secretInjectorHandler, q)
@@ -355,7 +358,7 @@ func runC09(t *testing.T, cases []map[string]interface{}, ev *vEvents) {
 						r.Status = 400
 					}
 				} else {
-					r = w.inject(vStr(a, "pass"), vBool(a, "cert"), vBool(a, "tls"))
+					r = w.inject(vStr(a, "pass"), vBool(a, "cert"), vBool(a, "tls"), vBool(a, "presented"))
 				}
 				sealed := w.isSealed()
 				pubOK := false
